@@ -306,6 +306,11 @@ func Explore(prog *ssa.Program, hpkg *ssa.Package, cfg *Config, opts ExploreOpts
 				mu.Unlock()
 
 				res := w.RunPath(entry, item, nil)
+				for try := 0; try < 2 && res.End == "solver"; try++ {
+					// transient solver failure (cancelled push, lost pipe under load): re-run this prefix
+					w.solver.restart()
+					res = w.RunPath(entry, item, nil)
+				}
 
 				mu.Lock()
 				active--
